@@ -90,6 +90,8 @@ func (c *cacheCase) header() http.Header {
 		h.Set("Age", "-5")
 	case "huge":
 		h.Set("Age", "200000000")
+	case "overflow":
+		h.Set("Age", "99999999999999999999")
 	default:
 		h.Set("Age", c.Age)
 	}
